@@ -148,8 +148,7 @@ GLOBALS = {'str__conform__': vobj(STR_CONFORM), 'str_call_conform': vobj(STR_CAL
 def _adapt_pre(c):
     decl = PB(c.a.obj)
     return [('arguments-are-objects', z3.And(c.a.self != C_NULL, c.a.obj != C_NULL)),
-            ('providedBy-yields-a-specification-with-an-implied-mapping', z3.Implies(z3.Not(pb_fails(c.a.obj)), z3.And(
-                subtype(typeof(decl), SBCLS), c.h('_implied')[decl] != C_NULL))),
+            ('providedBy-yields-a-specification', z3.Implies(z3.Not(pb_fails(c.a.obj)), subtype(typeof(decl), SBCLS))),
             ('the-hook-list-holds-the-installed-hooks', c.h('$list')[HOOKLIST] == HOOKS),
             ('a-new-tuple-is-empty', z3.ForAll([z3.Const('tp_t', Obj)], c.h('$tuple')[z3.Const('tp_t', Obj)] == Empty(SeqO)))]
 
@@ -177,7 +176,8 @@ def summary(c, k):
 
 def _adapt_post(c):
     log0, now = c.h0('$log'), c.h('$log')
-    ok = z3.Not(pb_fails(c.a.obj))
+    unset = z3.And(z3.Not(pb_fails(c.a.obj)), c.h0('_implied')[PB(c.a.obj)] == C_NULL)
+    ok = z3.And(z3.Not(pb_fails(c.a.obj)), c.h0('_implied')[PB(c.a.obj)] != C_NULL)
     k = z3.Int('ap_k')
     if 'i' in c.l:
         # witnesses for the existential: the loop counter at the moment of returning, or one more (the deciding call itself)
@@ -188,6 +188,8 @@ def _adapt_post(c):
         ('provided-returns-the-object-without-calling-anything', z3.Implies(z3.And(ok, prov(c)), z3.And(c.res == c.a.obj, now == log0, c.exc == C_NULL))),
         ('otherwise-the-hooks-are-called-in-list-order-until-one-decides', z3.Implies(z3.And(ok, z3.Not(prov(c))), body)),
         ('NULL-iff-an-exception-is-set', (c.res == C_NULL) == (c.exc != C_NULL)),
+        # fix b0: a declaration whose _implied slot was never set is an AttributeError (as self.providedBy(obj) of the Python code), nothing is called
+        ('an-unset-implied-mapping-is-an-AttributeError', z3.Implies(unset, z3.And(c.res == C_NULL, c.exc == cfun.EXC_ATTRIBUTE_ERROR, now == log0))),
         # the same fact in the form of the Python contract (contracts/C14_adapt.py: adapt_post / adapt_raises / adapt_rpost)
     ] + [('python-form:' + lbl, z3.Implies(z3.And(ok, z3.Not(prov(c))), f)) for lbl, f in _python_form(c)]
 
